@@ -47,9 +47,11 @@ func (c *ccStore) update(ts *stats.TrafficStats) {
 // effect) until the scheduler releases the calling thread.
 type gatedCC struct {
 	ccStore
-	g    *gate
-	tids sync.Map // goroutine id -> thread id
-	free atomic.Bool
+	g     *gate
+	tids  sync.Map // goroutine id -> thread id
+	free  atomic.Bool
+	failG sync.Map // thread id -> GetPortMapping fails
+	failU sync.Map // thread id -> UpdatePortMappingStats fails
 }
 
 func (c *gatedCC) tid() int {
@@ -59,14 +61,22 @@ func (c *gatedCC) tid() int {
 	return -1
 }
 func (c *gatedCC) GetPortMapping(id string) (*models.PortMapping, error) {
-	if t := c.tid(); t >= 0 && !c.free.Load() {
+	t := c.tid()
+	if t >= 0 && !c.free.Load() {
 		c.g.park(t)
+	}
+	if _, bad := c.failG.Load(t); bad && t >= 0 {
+		return nil, fmt.Errorf("storage unavailable")
 	}
 	return c.get(), nil
 }
 func (c *gatedCC) UpdatePortMappingStats(id string, ts *stats.TrafficStats) error {
-	if t := c.tid(); t >= 0 && !c.free.Load() {
+	t := c.tid()
+	if t >= 0 && !c.free.Load() {
 		c.g.park(t)
+	}
+	if _, bad := c.failU.Load(t); bad && t >= 0 {
+		return fmt.Errorf("storage unavailable")
 	}
 	c.update(ts)
 	return nil
@@ -75,7 +85,7 @@ func (c *gatedCC) GetClientPortMappings(int64) ([]*models.PortMapping, error) { 
 
 // ============================================================================
 // rep: reportTrafficStats under a forced interleaving
-//   rep r <R> { a <s> <r> t <n> s <k> <tid…> }×R
+//   rep r <R> { a <s> <r> t <n> s <k> <tid…> [g <k> <tid…>] [u <k> <tid…>] }×R   (g/u: that reporter's Get/Update fails)
 //   obs:  { r <sent> <recv> <updates> <lastS> <lastR> }×R
 // One schedule entry = one atomic step of the model: start (take the report lock, load
 // the counters), GetPortMapping, UpdatePortMappingStats(+ store last reported).
@@ -118,6 +128,22 @@ func runRep(t []string) string {
 			sched[i] = atoi(t[pos+7+i])
 		}
 		pos += 7 + k
+		// optional storage faults of this round: g <k> <tid…> / u <k> <tid…>
+		cc.failG.Range(func(key, _ any) bool { cc.failG.Delete(key); return true })
+		cc.failU.Range(func(key, _ any) bool { cc.failU.Delete(key); return true })
+		for _, key := range []string{"g", "u"} {
+			if pos+1 < len(t) && t[pos] == key {
+				kk := atoi(t[pos+1])
+				for i := 0; i < kk; i++ {
+					if key == "g" {
+						cc.failG.Store(atoi(t[pos+2+i]), true)
+					} else {
+						cc.failU.Store(atoi(t[pos+2+i]), true)
+					}
+				}
+				pos += 2 + kk
+			}
+		}
 		b.AddBytesSent(int64(as))
 		b.AddBytesReceived(int64(ar))
 		ths := make([]*repThread, n)
@@ -141,7 +167,7 @@ func runRep(t []string) string {
 					th.status = stParked
 					return true
 				}
-				if pause >= 40*time.Microsecond {
+				if pause >= dumpAfter() {
 					if gid := th.gid.Load(); gid != 0 && blockedInRepo(gid) {
 						blockedSeen++
 						if blockedSeen >= 3 {
@@ -221,6 +247,15 @@ func runRep(t []string) string {
 		obs = append(obs, fmt.Sprintf("r %d %d %d %d %d", m.TrafficStats.BytesSent, m.TrafficStats.BytesReceived, cc.updates, ls, lr))
 	}
 	return strings.Join(obs, " ")
+}
+
+// dumpAfter: how long a thread may be neither parked nor finished before the (world-stopping)
+// goroutine dump is consulted; under the race detector a dump costs milliseconds.
+func dumpAfter() time.Duration {
+	if raceEnabled {
+		return 1280 * time.Microsecond
+	}
+	return 40 * time.Microsecond
 }
 
 // blockedInRepo: goroutine gid is parked in a sync lock operation called from repo code
@@ -533,7 +568,13 @@ func spOnce(op string, chunks, cut, n int) string {
 			return "timeout op"
 		}
 	}
-	p := barrierRun(n, func(i int) { sp.Close() })
+	p := barrierRun(n, func(i int) {
+		if i%2 == 1 {
+			sp.CloseWithResult()
+		} else {
+			sp.Close()
+		}
+	})
 	if len(p) > 0 {
 		return "panic " + p[0]
 	}
